@@ -5,6 +5,7 @@ package pfcpiface
 import (
 	"bytes"
 	"fmt"
+	"net"
 	"regexp"
 	"runtime/pprof"
 	"sort"
@@ -299,8 +300,21 @@ func TestVerif_C10(t *testing.T) {
 		}
 		stopAt := t0.Add(stopOff)
 		time.Sleep(time.Until(stopAt))
+		// now and then somebody holds a fresh connection to the REST port without sending a request: the HTTP server
+		// cannot shut down gracefully in time, which must not keep the PFCP side from stopping
+		var httpIdle net.Conn
+		if sc%25 == 7 {
+			httpIdle, _ = net.DialTimeout("tcp", a.http, time.Second)
+			if httpIdle != nil {
+				res.event("stops_with_idle_rest_connection", 1)
+				desc["idle_rest_connection"] = true
+			}
+		}
 		stopStart := vTick()
 		stopped := a.stop(vStopWatchdog)
+		if httpIdle != nil {
+			httpIdle.Close()
+		}
 		wg.Wait()
 		for _, as := range assocs {
 			atomic.StoreInt32(&as.stopRead, 1)
@@ -465,19 +479,29 @@ func c10Refresh(t *testing.T, res *vResult) {
 		}
 		if len(lost) == 3 {
 			parts := strings.SplitN(lost[0], "|", 2)
-			res.violate("C10.R5", parts[0], parts[1]+" (reproduced in 3 consecutive runs of the scenario)", map[string]interface{}{"scenario": sc})
+			rule := "C10.R5"
+			if strings.HasPrefix(parts[0], "association-outlives") {
+				rule = "C10.R1"
+			}
+			res.violate(rule, parts[0], parts[1]+" (reproduced in 3 consecutive runs of the scenario)", map[string]interface{}{"scenario": sc})
 		}
 	}
 }
 
 // c10RefreshOnce runs one scenario; it returns "<shape>|<what>" when the bystander association was damaged, "" otherwise.
 func c10RefreshOnce(t *testing.T, res *vResult, sc, idx int) (bystander string) {
+	outlives := ""
+	defer func() {
+		if bystander == "" {
+			bystander = outlives
+		}
+	}()
 	{
 		rng := vEnv.rng("c10r", sc)
 		up4 := rng.Intn(4) == 0
 		hb := rng.Intn(2) == 0
 		readTO := time.Duration(50+rng.Intn(30)) * time.Millisecond
-		trigger := []string{"release", "release-first", "silence", "hbfail", "release+silence"}[rng.Intn(5)]
+		trigger := []string{"release", "release-first", "silence", "hbfail", "release+silence", "peer-crash"}[rng.Intn(6)]
 		if trigger == "hbfail" && !hb {
 			trigger = "silence"
 		}
@@ -557,6 +581,33 @@ func c10RefreshOnce(t *testing.T, res *vResult, sc, idx int) (bystander string) 
 				atomic.StoreInt32(&as.autoHB, 0)
 				time.Sleep(readTO - time.Duration(rng.Intn(4000))*time.Microsecond)
 				p.send(p.assocRelease(900))
+			case "peer-crash":
+				// the control plane dies with requests in flight: its port is closed when the answers arrive (ICMP port
+				// unreachable -> the agent's socket reports an error on its next reads), then silence. It comes back later
+				// on the same address and port.
+				for i := 0; i < 3; i++ {
+					p.send(p.heartbeat(uint32(600 + i)))
+				}
+				atomic.StoreInt32(&as.stopRead, 1)
+				<-as.rdDone
+				local := p.local
+				p.close()
+				res.event("peer_crashes_with_requests_in_flight", 1)
+				vWaitUntil(5*time.Second, func() bool { return a.conn(local) == nil })
+				np, err := vNewPeerAt(local, o.N4)
+				if err != nil {
+					res.inconclusive("could not bind the crashed peer's port again: " + err.Error())
+					atomic.StoreInt32(&stopKA, 1)
+					<-kaDone
+					atomic.StoreInt32(&bys.stopRead, 1)
+					<-bys.rdDone
+					by.close()
+					a.stop(vStopWatchdog)
+					return
+				}
+				p = np
+				as = &c10Assoc{peer: p, replies: map[uint32]message.Message{}, rdDone: make(chan struct{}), autoHB: 1}
+				go as.reader()
 			case "silence", "hbfail":
 				atomic.StoreInt32(&as.autoHB, 0)
 				if trigger == "hbfail" {
@@ -605,6 +656,10 @@ func c10RefreshOnce(t *testing.T, res *vResult, sc, idx int) (bystander string) 
 			}
 			if stale {
 				res.violate("C10.R4", "stale-entry "+trigger, fmt.Sprintf("after the association ended by %s the agent still holds a shut-down association object for %s: a fresh Association Setup from the same address and port is dropped", trigger, p.local), desc)
+			} else if !ended && (trigger == "silence" || trigger == "peer-crash" || trigger == "hbfail" || trigger == "release+silence") {
+				// the peer has been silent for more than 10 s, the read timeout is below 100 ms, and the association is still
+				// there and does not answer its peer: it did not end (reported when it reproduces, like the bystander rules)
+				outlives = "association-outlives-silence " + trigger + "|" + fmt.Sprintf("the peer stayed silent (%s) for more than 100 read timeouts (%v) but the association still exists and a fresh Association Setup from the same address and port is not answered", trigger, readTO)
 			} else if !ended {
 				res.inconclusive("association did not end within the watchdog (" + trigger + ")")
 			} else {
